@@ -39,10 +39,11 @@ SumHi(rt, i) == IF i >= Len(rt) THEN 0 ELSE LenHi(rt[i], rt[i + 1]) + SumHi(rt, 
 CostLo(rt, P) == SumLo(rt, 1) + P * 256 * Bends(rt)
 CostHi(rt, P) == SumHi(rt, 1) + P * 256 * Bends(rt)
 SameCost(a, b, P) == LET ra == Dedup(Unit(a))  rb == Dedup(Unit(b)) IN CostLo(ra, P) <= CostHi(rb, P) /\ CostLo(rb, P) <= CostHi(ra, P)
+\* (every route tag is a pair <<name, symmetry or -1>>: TLC cannot hold strings and tuples in one set)
 RouteTags(r) ==
     IF r.thrown THEN {} ELSE
-    (IF r.rawA # r.rawB THEN {"repeat-raw-route-differs"} ELSE {})
-    \cup (IF r.dispA # r.dispB THEN {"repeat-displayed-route-differs"} ELSE {})
+    (IF r.rawA # r.rawB THEN {<<"repeat-raw-route-differs", -1>>} ELSE {})
+    \cup (IF r.dispA # r.dispB THEN {<<"repeat-displayed-route-differs", -1>>} ELSE {})
     \* exact clause for raw routes whose coordinates are lattice values (buffered non-rectangular shapes give irrational
     \* offset vertices: those are covered by the 1e-9 clause on the displayed route)
     \cup (IF (\A c \in DOMAIN r.latA : \A i \in DOMAIN r.latA[c] : r.latA[c][i][1] # SENT /\ r.latA[c][i][2] # SENT) /\
@@ -50,13 +51,13 @@ RouteTags(r) ==
               \E i \in DOMAIN r.latA[c] : r.latT[c][i][1] # r.latA[c][i][1] + r.kx \/ r.latT[c][i][2] # r.latA[c][i][2] + r.ky)
           THEN {IF r.mode = 0 /\ r.buf > 0 /\ \E sh \in DOMAIN r.shapes : Len(r.shapes[sh]) # 4 \/ \E j \in DOMAIN r.shapes[sh] :
                                      LET a == r.shapes[sh][j]  b == r.shapes[sh][(j % Len(r.shapes[sh])) + 1] IN a[1] # b[1] /\ a[2] # b[2]
-                THEN "translated-raw-route-differs:polyline:buffered-shape-with-slanted-sides" ELSE "translated-raw-route-differs"} ELSE {})
+                THEN <<"translated-raw-route-differs:polyline:buffered-shape-with-slanted-sides", -1>> ELSE <<"translated-raw-route-differs", -1>>} ELSE {})
     \cup (IF ~r.dispShape \/ r.dispDevE12 > 1000
           THEN {IF r.mode = 1 /\ Len(r.latA) = Len(r.latT) /\ \A c \in DOMAIN r.latA : Len(r.latA[c]) = Len(r.latT[c]) /\
                                       \A i \in DOMAIN r.latA[c] : r.latA[c][i][1] = SENT \/ (r.latT[c][i][1] = r.latA[c][i][1] + r.kx /\ r.latT[c][i][2] = r.latA[c][i][2] + r.ky)
-                THEN "translated-displayed-route-differs:orthogonal:same-raw-routes-nudged-differently"
-                ELSE IF r.mode = 0 /\ r.buf > 0 THEN "translated-displayed-route-differs:polyline:buffered-shapes"
-                ELSE "translated-displayed-route-differs"} ELSE {})
+                THEN <<"translated-displayed-route-differs:orthogonal:same-raw-routes-nudged-differently", -1>>
+                ELSE IF r.mode = 0 /\ r.buf > 0 THEN <<"translated-displayed-route-differs:polyline:buffered-shapes", -1>>
+                ELSE <<"translated-displayed-route-differs", -1>>} ELSE {})
     \* (tagged apart: every connector whose cost changes has an end lying exactly on the boundary of a shape -- a point that is
     \*  neither inside nor outside, for which the orientation tests of the visibility code have no symmetric answer)
     \cup {LET CC == {c \in DOMAIN r.latA : Integral(r.latA[c]) /\ Integral(r.sym[t].lat[c]) /\ ~SameCost(r.latA[c], r.sym[t].lat[c], r.P)}
